@@ -243,3 +243,11 @@ SUBS = [
     Sub("export-after-mutation", check_export_after_mutation, xr_case(), nontrivial=nontrivial, quick=200, thorough=1200),
     Sub("reject", check_reject, reject_case(), nontrivial=nontrivial, quick=500, thorough=3000),
 ]
+
+
+# objects with a history (reads that may fill caches, in-place writes): observables equal those of a fresh object
+from pbt import aged as _aged  # noqa: E402
+
+SUBS.append(_aged.sub("C17", quick=120))
+ASSUMPTIONS = list(ASSUMPTIONS) + ["aged sub-property: library results are a function of the public primary state "
+                                   "(corners, n, names, units, bc, subregions, array, validity, labels, mapping, unit)"]
